@@ -317,7 +317,7 @@ theorem absent_micro {s s' : State} {th : Th} {ch ch2 : Nat} {op : MOp} {rest : 
   have a5 := hp.byKey_some
   have a6 := hp.byKey_obj
   have m1 := @mem_ins
-  have m2 := @List.mem_of_mem_erase
+  have m2 : ∀ {a b : Nat} {l : List Nat}, a ∈ l.erase b → a ∈ l := List.mem_of_mem_erase
   cases op <;> simp only [microStep] at hs
   all_goals (try (split at hs))
   all_goals (try (split at hs))
